@@ -38,7 +38,7 @@ def run_selftest():
                       ("bad_unsigned_sub", True), ("good_unsigned_sub", False), ("bad_unwrap", True), ("good_lossy", False),
                       ("bad_alloc", True), ("bad_alloc_u16", True), ("good_alloc", False),
                       ("good_split_first", False), ("bad_split_second", True), ("good_masked_guard", False),
-                      ("bad_masked_guard", True)]:
+                      ("bad_masked_guard", True), ("good_get_range", False), ("bad_get_range", True), ("good_get_elem", False)]:
         b = body("fx_rules::" + name)
         if b is None:
             continue
